@@ -228,6 +228,9 @@ class _SocksMachine(object):
         # "the I/O-doing" stuff
         self._sender = sender
         self._when_done.fire(sender)
+        # application data may have arrived together with the reply
+        if self._data:
+            self.got_data()
 
     @_machine.output()
     def _domain_name_resolved(self, domain):
@@ -294,7 +297,10 @@ class _SocksMachine(object):
     def _send_request(self, auth_method):
         "send the request (connect, resolve or resolve_ptr)"
         assert auth_method == 0x00  # "no authentication required"
-        return self._dispatch[self._req_type](self)
+        self._dispatch[self._req_type](self)
+        # the reply may have arrived together with the method selection
+        if self._data:
+            self.got_data()
 
     @_machine.output()
     def _relay_data(self):
